@@ -174,7 +174,7 @@ func (w *world) owed(c *client) int {
 }
 
 func (w *world) parked(c *client) *kernel.Parked { return w.k.Find(c.name) }
-func (w *world) idle(c *client) bool            { return !c.isGone() && w.parked(c) == nil }
+func (w *world) idle(c *client) bool             { return !c.isGone() && w.parked(c) == nil }
 
 func (w *world) connect() {
 	c := &client{id: len(w.clients), k: w.k, hdr: http.Header{}}
